@@ -447,6 +447,43 @@ void sut_solve(mpq_QSprob p, const SolveCfg &c, QSbasis *basis, Solution &out, s
   }
 }
 
+void sut_probe_accessors(mpq_QSprob p, AccessorProbe &o) {
+  o = AccessorProbe();
+  int n = mpq_QSget_colcount(p), m = mpq_QSget_rowcount(p);
+  QArr x(n + 1), pi(m + 1), sl(m + 1), rc(n + 1);
+  Q val;
+  o.status_ok = mpq_QSget_status(p, &o.status) == 0;
+  o.objval_ok = mpq_QSget_objval(p, qp(val)) == 0;
+  if (o.objval_ok) o.objval = val;
+  o.x_ok = mpq_QSget_x_array(p, x.v) == 0;
+  o.pi_ok = mpq_QSget_pi_array(p, pi.v) == 0;
+  o.slack_ok = mpq_QSget_slack_array(p, sl.v) == 0;
+  o.rc_ok = mpq_QSget_rc_array(p, rc.v) == 0;
+  if (o.x_ok) for (int j = 0; j < n; j++) o.x.push_back(x.get(j));
+  if (o.rc_ok) for (int j = 0; j < n; j++) o.rc.push_back(rc.get(j));
+  if (o.pi_ok) for (int i = 0; i < m; i++) o.pi.push_back(pi.get(i));
+  if (o.slack_ok) for (int i = 0; i < m; i++) o.slack.push_back(sl.get(i));
+  std::string cs((size_t)n + 1, '?'), rs((size_t)m + 1, '?');
+  o.basis_ok = mpq_QSget_basis_array(p, &cs[0], &rs[0]) == 0;
+  // named accessors and the iteration count: called for their side effects (diagnostics, crashes)
+  std::vector<char *> cn((size_t)n + 1, nullptr), rn((size_t)m + 1, nullptr);
+  if (n > 0 && mpq_QSget_colnames(p, cn.data()) == 0) {
+    Q t;
+    mpq_QSget_named_x(p, cn[0], qp(t));
+    mpq_QSget_named_rc(p, cn[0], qp(t));
+    for (int j = 0; j < n; j++) mpq_QSfree(cn[j]);
+  }
+  if (m > 0 && mpq_QSget_rownames(p, rn.data()) == 0) {
+    Q t;
+    mpq_QSget_named_pi(p, rn[0], qp(t));
+    mpq_QSget_named_slack(p, rn[0], qp(t));
+    for (int i = 0; i < m; i++) mpq_QSfree(rn[i]);
+  }
+  int it = 0;
+  mpq_QSget_itcnt(p, &it, &it, &it, &it, &it);
+  o.nfail = !o.objval_ok + !o.x_ok + !o.pi_ok + !o.slack_ok + !o.rc_ok;
+}
+
 bool sut_fetch_solution(mpq_QSprob p, Solution &s, std::string *why) {
   int n = mpq_QSget_colcount(p), m = mpq_QSget_rowcount(p);
   QArr x(n), pi(m), sl(m), rc(n);
